@@ -36,6 +36,7 @@ def run(ctx: Any, prog: Program) -> None:
     ctx.rule('C17.N1', 'collapse_one never mutates the template and only adds copies to the target map', floor=6)
     ctx.rule('C17.N2', 'collapse_all removes each instance entity before collapsing it and is bounded by recur_limit', floor=4)
     ctx.rule('C17.N3', 'positions are rotated then translated; directions and angles are only rotated', floor=12)
+    ctx.rule('C17.N5', 'exactly the visible template objects are collapsed: skipped iff hidden or not vis_shown (when visgroups are stripped)', floor=4)
     ctx.rule('C17.N4', 'fixup_name covers every FixupStyle and leaves @/! names unchanged', floor=4)
 
     co = ins.func('collapse_one')
@@ -84,6 +85,46 @@ def run(ctx: Any, prog: Program) -> None:
     if n_sinks < 4:
         raise AnalysisError(f'collapse_one: only {n_sinks} sinks into the target map found; expected add_brush/add_ent/visgroup append/add_out')
     # the cached template is what is passed in: collapse_all passes file_cache entries
+    # ---- N5: visibility filter (truth table of the skip predicate) ------------------------------------------------
+    import itertools
+
+    def bool_eval(e: ast.AST, var: str, env: dict, depth: int = 0) -> bool:
+        if depth > 4:
+            raise AnalysisError('visibility predicate too deep')
+        if isinstance(e, ast.BoolOp):
+            vals = [bool_eval(v, var, env, depth) for v in e.values]
+            return all(vals) if isinstance(e.op, ast.And) else any(vals)
+        if isinstance(e, ast.UnaryOp) and isinstance(e.op, ast.Not):
+            return not bool_eval(e.operand, var, env, depth)
+        if isinstance(e, ast.Attribute) and dotted(e.value) == var and e.attr in env:
+            return env[e.attr]
+        if isinstance(e, ast.Compare) and ast.unparse(e) in ('visgroup is False', 'visgroup is not False'):
+            v = env['visgroup_is_false']
+            return v if ast.unparse(e) == 'visgroup is False' else not v
+        if isinstance(e, ast.Call) and isinstance(e.func, ast.Name) and ins.has_func(e.func.id) and len(e.args) == 1 and dotted(e.args[0]) == var:
+            hf = ins.func(e.func.id)
+            rets = [r for r in walk_no_nested(hf) if isinstance(r, ast.Return) and r.value is not None]
+            if len(rets) != 1:
+                raise AnalysisError(f'visibility helper {e.func.id} is not a single-expression predicate')
+            return bool_eval(rets[0].value, hf.args.args[0].arg, env, depth + 1)
+        raise AnalysisError(f'collapse_one: visibility predicate contains `{ast.unparse(e)}` which is not modelled')
+    for lp in [n for n in walk_no_nested(co) if isinstance(n, ast.For) and ast.unparse(n.iter) in ('file.vmf.brushes', 'file.vmf.entities')]:
+        var = lp.target.id
+        first = lp.body[0]
+        if not (isinstance(first, ast.If) and len(first.body) == 1 and isinstance(first.body[0], ast.Continue)):
+            raise AnalysisError(f'collapse_one: loop over {ast.unparse(lp.iter)} does not start with a skip test')
+        for hidden, shown, auto in itertools.product((False, True), repeat=3):
+            env = {'hidden': hidden, 'vis_shown': shown, 'vis_auto_shown': auto, 'visgroup_is_false': True}
+            skipped = bool_eval(first.test, var, env)
+            if hidden or not shown:
+                want = True
+            elif auto:
+                want = False
+            else:
+                continue      # auto-visgroup hidden only: not specified
+            ctx.check('C17.N5', skipped == want, ins, first, f'{ast.unparse(lp.iter)}: an object with hidden={hidden}, vis_shown={shown}, vis_auto_shown={auto} is '
+                      f'{"skipped" if skipped else "collapsed"} but must be {"skipped" if want else "collapsed"} (visible = not hidden and shown in its visgroups)',
+                      text=f'{ast.unparse(lp.iter)} hidden={hidden} shown={shown} auto={auto}')
     # ---- N2 --------------------------------------------------------------------------------------------
     ca = ins.func('collapse_all')
     outer = [s for s in ca.body if isinstance(s, ast.For)]
@@ -223,6 +264,7 @@ def root(node: ast.AST) -> Optional[str]:
 
 
 MUTANTS = [
+    {'id': 'hidden_objects_collapsed', 'file': 'instancing.py', 'find': "        if old_brush.hidden or not old_brush.vis_shown:\n            continue", 'replace': "        if not old_brush.vis_shown:\n            continue", 'expect': 'C17.N5'},
     {'id': 'localise_template_brush', 'file': 'instancing.py', 'find': "        new_brush = old_brush.copy(vmf_file=vmf, side_mapping=inst.face_ids, keep_vis=visgroup is not False)\n        vmf.add_brush(new_brush)", 'replace': "        new_brush = old_brush.copy(vmf_file=vmf, side_mapping=inst.face_ids, keep_vis=visgroup is not False)\n        old_brush.localise(origin, orient)\n        vmf.add_brush(new_brush)", 'expect': 'C17.N1'},
     {'id': 'template_ent_added', 'file': 'instancing.py', 'find': "        vmf.add_ent(new_ent)\n        new_ents.append(new_ent)", 'replace': "        vmf.add_ent(old_ent)\n        new_ents.append(new_ent)", 'expect': 'C17.N1'},
     {'id': 'proxy_output_mutated', 'file': 'instancing.py', 'find': "        id_to_ent[ent_id].add_out(Output.combine(prox_out, out))", 'replace': "        prox_out.target = out.target\n        id_to_ent[ent_id].add_out(prox_out)", 'expect': 'C17.N1'},
